@@ -356,7 +356,9 @@ Inductive pkind := PVal | PPtr.
 
 Record prop_decl := mk_prop {
   p_cls : string; p_name : string; p_hidden : string; p_kind : pkind; p_types : tydecl;
-  p_base : option string; p_validator : option string; p_deletable : bool; p_public : bool
+  p_base : option string; p_validator : option string; p_deletable : bool; p_public : bool;
+  p_node_opt : bool    (* some code path of the class leaves the hidden attribute None instead of a ValueNode: then
+                          `node = getattr(self, hidden); node.value = value` raises AttributeError, before any change *)
 }.
 
 Definition pkey (d : prop_decl) : string := p_cls d ++ "." ++ p_name d.
@@ -410,7 +412,10 @@ Fixpoint inst_aux (tm : list tstmt) (d : prop_decl) (ts : list string) (vb : lis
                   SInline next ("validator:" ++ v) ASame vb' :: inst_aux r d ts vb nx
       | None => inst_aux r d ts vb next
       end
-  | TAssignNodeValue :: r => SMutate next ("self." ++ p_hidden d ++ ".value") :: inst_aux r d ts vb (S next)
+  | TAssignNodeValue :: r =>
+      (if p_node_opt d
+       then SCall next ("setattr:self." ++ p_hidden d ++ ".value") true true true   (* raises before it writes *)
+       else SMutate next ("self." ++ p_hidden d ++ ".value")) :: inst_aux r d ts vb (S next)
   | TSetattr :: r => SMutate next ("self." ++ p_hidden d) :: inst_aux r d ts vb (S next)
   end.
 
@@ -748,7 +753,7 @@ Definition rd_decl (ts : tokens) : option (prop_decl * tokens) :=
                     | Some (v, r6) =>
                         match p_bool r6 with
                         | Some (dl, r7) =>
-                            Some (mk_prop cl nm hid (if kd =? "v" then PVal else PPtr) tyd b v dl true, r7)
+                            Some (mk_prop cl nm hid (if kd =? "v" then PVal else PPtr) tyd b v dl true false, r7)
                         | None => None end
                     | None => None end
                 | None => None end
